@@ -6,8 +6,10 @@ export SELFTEST_TIER="${1:-quick}"
 jobs=()
 for d in seeded/C*-*; do
   prop=$(basename $d | cut -d- -f1)
+  if grep -q '"status": "neutralised"' $d/meta.json 2>/dev/null; then echo "SELFTEST $(basename $d)/patch.diff $prop neutralised (see meta.json)"; continue; fi
   echo "$d/patch.diff $prop"
 done > /tmp/selftest_jobs.$$
+grep '^SELFTEST' /tmp/selftest_jobs.$$; sed -i '/^SELFTEST/d' /tmp/selftest_jobs.$$
 for p in mutants/*.patch; do
   prop=$(basename $p .patch | sed 's/.*-\(C[0-9]*\)$/\1/')
   echo "$p $prop"
